@@ -28,6 +28,11 @@ struct in_s IN;
 struct in_s nondet_in(void);
 #endif
 
+#ifdef SK_LEN
+static const uint8_t SK[SK_LEN] = { SK_BYTES };
+static const uint8_t SKM[SK_LEN] = { SK_MASK };
+#endif
+
 static unsigned cb_count;
 static void count_cb(binson_parser *parser, uint16_t next_state, void *context)
 {
@@ -49,6 +54,9 @@ void harness(void)
     LOAD_INPUTS();
     EXACT_BYTES(buf, NB);
     for (size_t i = 0; i < NB; i++) buf[i] = IN.buf[i];
+#ifdef SK_LEN
+    for (size_t i = 0; i < SK_LEN; i++) { if (SKM[i]) buf[i] = SK[i]; }
+#endif
     EXACT_ARRAY(binson_state, st, DEPTH);
     for (size_t i = 0; i < DEPTH; i++) st[i] = IN.st0[i];
     binson_parser p = IN.p0;          /* arbitrary prior contents */
